@@ -117,3 +117,14 @@ Arguments depth_eq {fin allow_null allow_arr} v _.
 Arguments deq_jeq {fin allow_null allow_arr N} fuel a b _ _.
 Arguments deep_eq_json_eq {fin allow_null allow_arr N} a b _ _.
 Arguments enum_match_json_eq {fin allow_null allow_arr N} d e _ _.
+
+(* the class with null and arrays admitted contains the others *)
+Lemma jd_mono (fin : f64 -> Prop) (an aa : bool) : forall d, jd fin an aa d -> jd fin true true d.
+Proof.
+  fix IH 1. intros d. destruct d as [| | |d32 f| | |id l| |id m]; intros H; try exact H; try reflexivity.
+  - apply jd_arr. apply jd_arr in H. destruct H as [_ H]. split; [reflexivity|]. revert l H. fix IHl 1. intros l H.
+    destruct l as [|x t]; [constructor|]. inversion H; subst. constructor; [apply IH; assumption | apply IHl; assumption].
+  - apply jd_obj. apply jd_obj in H. destruct H as [H Hnd]. split; [|exact Hnd]. clear Hnd. revert m H. fix IHm 1. intros m H.
+    destruct m as [|kv t]; [constructor|]. inversion H as [|y ys [Hk Hv] Ht]; subst.
+    constructor; [split; [exact Hk | apply IH; exact Hv] | apply IHm; exact Ht].
+Qed.
